@@ -26,7 +26,8 @@ theorem applyIdmap_ok {s0 g0 s t g} (hL : SimL s0 g0) (hstL : StagedL s0 g0 s t 
     (by intro i c hc; rw [hL.lenE]; exact hstL.ids i c hc)
     (by
       intro c hc
-      rw [hL.e2i]
+      show s0.idmap.lookup c.1 = none
+      rw [hL.e2i c.1]
       apply lookup_eq_none_of_not_mem_keys
       intro p hp
       obtain ⟨q, hq, rfl⟩ := List.mem_map.mp hp
@@ -113,10 +114,15 @@ theorem SimL.commit {s0 g0 s t g} (c : Cfg) (hL : SimL s0 g0) (hstL : StagedL s0
         have hi' : n - g0.next = i := by omega
         rw [hi', hg?]; simp
   refine { lenE := ?_, lenL := by rw [hidm]; exact hlenL, e2i := ?_, extPt := ?_, extLt := hstL.extLt,
-           extNZ := hstL.extNZ, extND := hstL.extND, labels := ?_, labelsInt := by rw [hint]; exact hstL.labelsInt,
+           extNZ := hstL.extNZ, extND := hstL.extND, extIdND := hstL.extIdND, labels := ?_, labelsInt := by rw [hint]; exact hstL.labelsInt,
            labelsLt := hstL.labelsLt, deadLt := hstL.deadLt, small := by rw [hint]; exact hstL.small, i2lOK := ?_ }
   · rw [hidm, hi2e, List.length_append, List.length_map, hL.lenE, hstL.next]
-  · rw [hidm, he2i, hL.e2i, hstL.extEq, List.map_append, List.map_reverse, List.map_map]; rfl
+  · intro x
+    rw [hidm]
+    unfold IdMap.lookup
+    rw [he2i, hstL.extEq, List.map_append, List.map_reverse, List.map_map, List.lookup_append, List.lookup_append]
+    congr 1
+    exact hL.e2i x
   · intro n
     rw [hidm, hi2e, hstL.extPt n]
     by_cases hlt : n < g0.next
